@@ -10,6 +10,7 @@
 package main
 
 import (
+	"sort"
 	"fmt"
 	"math/rand"
 	"strings"
@@ -65,7 +66,7 @@ func terminalRecon(s string) bool { return s == "refused" || s == "unanswered" |
 
 type timing struct{ H, R, T time.Duration }
 
-var nStarved int64
+var nStarved, nNumberedChannels int64
 
 var (
 	nScripts, nEpochs, nHeartbeats, nReconnects, nTerminal, nStaleKnown, nSendsOK, nSendsErr int64
@@ -116,7 +117,11 @@ func runScript(id int, script []epochScript, tm timing, can *mon.Canary) {
 	var hbCopies, hbAnswered, connCopies int
 	unexpectedConnReq := 0
 	curCh := chanFor(same, 0)
-	slack := func() time.Duration { return can.Slack() }
+	// the stall allowance is taken over this script's own lifetime (four scripts run side by
+	// side; a freeze during an earlier script says nothing about this one)
+	scriptStart := time.Now()
+	stallHere := func() time.Duration { return can.StallSince(scriptStart) }
+	slack := func() time.Duration { return 3*stallHere() + 20*time.Millisecond }
 	// frames the scripted gateway sends are handed over by one goroutine, in the
 	// order the handler produced them
 	deliverQ := make(chan knxnet.Service, 4096)
@@ -228,7 +233,9 @@ func runScript(id int, script []epochScript, tm timing, can *mon.Canary) {
 				send(&knxnet.ConnStateRes{Channel: ch})
 			}
 		case spec.SvcTunnelReq:
-			if (phase == "healthy" || phase == "cause") && p.Channel == curCh {
+			// a gateway that has fallen silent does not acknowledge telegrams either: a Send
+			// can then be pending when the heartbeat fails and the reconnect starts
+			if (phase == "healthy" || (phase == "cause" && script[epoch].Cause != "silent")) && p.Channel == curCh {
 				ch, sq := p.Channel, p.Seq
 				send(&knxnet.TunnelRes{Channel: ch, SeqNumber: sq})
 			}
@@ -268,28 +275,47 @@ func runScript(id int, script []epochScript, tm timing, can *mon.Canary) {
 	sendDone := make(chan struct{})
 	var sendID uint32
 	var pause atomic.Bool
-	go func() {
-		defer close(sendDone)
-		for {
-			select {
-			case <-stopSend:
-				return
-			default:
+	// two senders: one can be waiting for the send lock while the other one's request is
+	// unacknowledged and a reconnect is under way
+	var sendWG sync.WaitGroup
+	for g := 0; g < 2; g++ {
+		sendWG.Add(1)
+		go func(g int) {
+			defer sendWG.Done()
+			for {
+				select {
+				case <-stopSend:
+					return
+				default:
+				}
+				if pause.Load() {
+					time.Sleep(tm.R)
+					continue
+				}
+				id := atomic.AddUint32(&sendID, 1)
+				if err := c.Send(2*g, id); err == nil {
+					atomic.AddInt64(&nSendsOK, 1)
+				} else {
+					atomic.AddInt64(&nSendsErr, 1)
+				}
+				time.Sleep(tm.R + time.Duration(g)*tm.R/2)
 			}
-			if pause.Load() {
-				time.Sleep(tm.R)
-				continue
-			}
-			id := atomic.AddUint32(&sendID, 1)
-			if err := c.Send(0, id); err == nil {
-				atomic.AddInt64(&nSendsOK, 1)
-			} else {
-				atomic.AddInt64(&nSendsErr, 1)
-			}
-			time.Sleep(tm.R)
-		}
-	}()
+		}(g)
+	}
+	go func() { sendWG.Wait(); close(sendDone) }()
 	hang := 20*(tm.T+tm.H) + 5*time.Second
+	// bounded hand-over: a client that has stopped taking frames is reported, not waited for
+	stuck := false
+	deliver := func(svc knxnet.Service) bool {
+		if stuck {
+			return false
+		}
+		taken, expired := s.DeliverTimeout(svc, hang)
+		if expired {
+			stuck = true
+		}
+		return taken
+	}
 	waitFor := func(cond func() bool, bound time.Duration) bool {
 		dl := time.Now().Add(bound)
 		for !cond() {
@@ -340,7 +366,6 @@ func runScript(id int, script []epochScript, tm timing, can *mon.Canary) {
 		}
 		return worst > 4*tm.R+10*time.Millisecond, worst
 	}
-	scriptStart := time.Now()
 	liveness := map[string]bool{"foreign.reaction": true, "reconnect.stuck": true, "reconnect.spurious": true, "heartbeat.missing": true, "reconnect.late": true, "heartbeat.gap": true, "epoch.inbound-number": true}
 	fail := func(tag, class string, cs map[string]interface{}, format string, a ...interface{}) {
 		if liveness[tag] {
@@ -399,18 +424,22 @@ func runScript(id int, script []epochScript, tm timing, can *mon.Canary) {
 		// inbound traffic + noise during the healthy part
 		for k := 0; k < 3; k++ {
 			nextInboundID++
-			if !s.Deliver(&knxnet.TunnelReq{Channel: ch, SeqNumber: inboundSeq, Payload: gateway.Ind(nextInboundID)}) {
+			if !deliver(&knxnet.TunnelReq{Channel: ch, SeqNumber: inboundSeq, Payload: gateway.Ind(nextInboundID)}) {
 				break
 			}
 			inboundSeq++
 		}
+		if stuck {
+			fail("receive-loop.stuck", "other", nil, "epoch %d: the client stopped taking frames from its socket (a frame was not taken within the hang bound) although the script had not ended the tunnel", ei)
+			return
+		}
 		if e.Noise {
 			from := s.Len()
-			s.Deliver(&knxnet.DiscReq{Channel: ch + 7})
-			s.Deliver(&knxnet.DiscRes{Channel: ch + 7})
-			s.Deliver(&knxnet.ConnStateRes{Channel: ch + 7, Status: 0x21})
-			s.Deliver(&knxnet.TunnelRes{Channel: ch + 7, SeqNumber: 0})
-			s.Deliver(&knxnet.ConnStateRes{Channel: ch + 9}) // barrier: all earlier ones were processed once this is taken
+			deliver(&knxnet.DiscReq{Channel: ch + 7})
+			deliver(&knxnet.DiscRes{Channel: ch + 7})
+			deliver(&knxnet.ConnStateRes{Channel: ch + 7, Status: 0x21})
+			deliver(&knxnet.TunnelRes{Channel: ch + 7, SeqNumber: 0})
+			deliver(&knxnet.ConnStateRes{Channel: ch + 9}) // barrier: all earlier ones were processed once this is taken
 			time.Sleep(tm.R)
 			for _, x := range s.LogFrom(from) {
 				if x.Kind == memsock.Tx && (x.P.Service == spec.SvcDiscRes || x.P.Service == spec.SvcConnReq) {
@@ -433,7 +462,7 @@ func runScript(id int, script []epochScript, tm timing, can *mon.Canary) {
 				if x.Kind == memsock.Tx && x.P.Service == spec.SvcConnStateReq && x.P.Channel == ch {
 					atomic.AddInt64(&nHeartbeats, 1)
 					if gap := x.T - prevT; gap > tm.H+slack() {
-						if can.Max() > 250*time.Millisecond {
+						if stallHere() > 250*time.Millisecond {
 							r.Inconclusive(sig + ": scheduler stall during heartbeat spacing check")
 						} else {
 							fail("heartbeat.gap", "other", map[string]interface{}{"gap_ms": float64(gap) / 1e6}, "epoch %d: %v without a connection-state request for the current channel (heartbeat interval %v, slack %v)", ei, gap, tm.H, slack())
@@ -490,16 +519,20 @@ func runScript(id int, script []epochScript, tm timing, can *mon.Canary) {
 			terminal, terminalWhy = true, "close"
 			continue
 		case "discreq":
-			s.Deliver(&knxnet.DiscReq{Channel: ch})
+			deliver(&knxnet.DiscReq{Channel: ch})
 			causeT = s.Now()
 		case "discres":
 			setPhase("terminal")
-			s.Deliver(&knxnet.DiscRes{Channel: ch})
+			deliver(&knxnet.DiscRes{Channel: ch})
 			causeT = s.Now()
 			terminal, terminalWhy = true, "disconnect response for the current channel"
 		default:
 			// silent / status / foreign: the handler (phase "cause") now fails every
 			// heartbeat exchange accordingly
+		}
+		if stuck {
+			fail("receive-loop.stuck", "other", nil, "epoch %d: the client stopped taking frames from its socket (a frame was not taken within the hang bound) although the script had not ended the tunnel", ei)
+			return
 		}
 		if e.Cause != "discres" {
 			// the client must issue a fresh connect request (c, d)
@@ -528,7 +561,7 @@ func runScript(id int, script []epochScript, tm timing, can *mon.Canary) {
 				ref = causeT
 			}
 			recordPrompt(e.Cause, creq.T-ref)
-			if d := creq.T - ref; d > slack() && can.Max() <= 250*time.Millisecond {
+			if d := creq.T - ref; d > slack() && stallHere() <= 250*time.Millisecond {
 				fail("reconnect.late", "other", map[string]interface{}{"delay_ms": float64(d) / 1e6}, "epoch %d: the connect request came %v after the point where the failure was established (cause %s, slack %v)", ei, d, e.Cause, slack())
 				return
 			}
@@ -580,7 +613,7 @@ func runScript(id int, script []epochScript, tm timing, can *mon.Canary) {
 				// sync point: inbound request with the new channel and number 0
 				f2 := s.Len()
 				nextInboundID++
-				s.Deliver(&knxnet.TunnelReq{Channel: nch, SeqNumber: 0, Payload: gateway.Ind(nextInboundID)})
+				deliver(&knxnet.TunnelReq{Channel: nch, SeqNumber: 0, Payload: gateway.Ind(nextInboundID)})
 				if !waitFor(func() bool {
 					for _, x := range s.LogFrom(f2) {
 						if x.Kind == memsock.Tx && x.P.Service == spec.SvcTunnelRes && x.P.Channel == nch && x.P.Seq == 0 && x.P.Status == 0 {
@@ -672,6 +705,39 @@ func runScript(id int, script []epochScript, tm timing, can *mon.Canary) {
 		case <-time.After(tm.T + hang):
 			fail("send.hang", "other", nil, "a Send never returned")
 			return
+		}
+	}
+	// channel and send counter change together: per channel the telegrams go out with
+	// consecutive numbers from 0 (a number advances with an acknowledged request only),
+	// whichever Send happened to be waiting while the reconnect was under way
+	if !same {
+		log := s.Log()
+		byCh := map[uint8][]*tun.SendOp{}
+		var order []uint8
+		for _, o := range tun.Ops(log) {
+			if len(o.Frames) == 0 {
+				continue
+			}
+			if _, ok := byCh[o.Channel]; !ok {
+				order = append(order, o.Channel)
+			}
+			byCh[o.Channel] = append(byCh[o.Channel], o)
+		}
+		for _, ch := range order {
+			blocks := byCh[ch]
+			sort.SliceStable(blocks, func(i, j int) bool { return blocks[i].Frames[0] < blocks[j].Frames[0] })
+			next := uint8(0)
+			for _, b := range blocks {
+				if b.Seq != next {
+					fail("epoch.send-numbering", "other", map[string]interface{}{"channel": ch, "telegram": b.ID, "first_frame_index": b.Frames[0]},
+						"on channel %d telegram %d went out with sequence number %d, expected %d (a frame pairs one epoch's channel with another epoch's counter, or a number was skipped / reused)", ch, b.ID, b.Seq, next)
+					return
+				}
+				if b.RetIdx >= 0 && (b.OK() || b.Rejected()) {
+					next++
+				}
+			}
+			atomic.AddInt64(&nNumberedChannels, 1)
 		}
 	}
 	atomic.AddInt64(&nScripts, 1)
@@ -884,7 +950,7 @@ func genScripts(rng *rand.Rand, thorough bool) [][]epochScript {
 
 func run(rr *mon.Run) {
 	r = rr
-	r.Rule("scripts over 1..5 connection epochs: every ending cause {silence, status (all 255 non-zero codes over the run), foreign-channel answers only, disconnect request, disconnect response} x every reconnect outcome {accepted, busy twice then accepted, two requests lost then accepted, refused (rotating status), unanswered, busy forever}, enumerated to depth 2 and sampled to depth 5, with foreign-channel noise frames, healthy heartbeats withheld until the 3rd copy, a background sender and inbound traffic; three timing regimes (H<T, H=T, H>T). Distinct = distinct (timing, script) signatures that ran to their end (each contains at least one fault, disconnect or reconnect)")
+	r.Rule("scripts over 1..5 connection epochs: every ending cause {silence, status (all 255 non-zero codes over the run), foreign-channel answers only, disconnect request, disconnect response} x every reconnect outcome {accepted, busy twice then accepted, two requests lost then accepted, refused (rotating status), unanswered, busy forever}, enumerated to depth 2 and sampled to depth 5, with foreign-channel noise frames, healthy heartbeats withheld until the 3rd copy, a background sender and inbound traffic; three timing regimes (H<T, H=T, H>T) plus one with the resend interval above the response timeout (depth-1 scripts). Distinct = distinct (timing, script) signatures that ran to their end (each contains at least one fault, disconnect or reconnect)")
 	rng := rand.New(rand.NewSource(r.Seed()*7717 + 1))
 	scripts := genScripts(rng, r.Thorough())
 	timings := []timing{{10 * time.Millisecond, 2 * time.Millisecond, 60 * time.Millisecond}, {60 * time.Millisecond, 3 * time.Millisecond, 60 * time.Millisecond}, {100 * time.Millisecond, 2 * time.Millisecond, 50 * time.Millisecond}}
@@ -902,12 +968,43 @@ func run(rr *mon.Run) {
 		jobs <- job{i, s, timings[i%3]}
 	}
 	close(jobs)
+	// fourth regime: resend interval longer than the response timeout (legal, unusual):
+	// nothing is repeated inside one exchange, the timeout alone decides
+	slow := timing{40 * time.Millisecond, 400 * time.Millisecond, 30 * time.Millisecond}
+	var slowJobs []job
+	for ci, c := range causes {
+		for ri, rc := range []string{"ok", "refused", "unanswered"} {
+			e := epochScript{Healthy: 1 + (ci+ri)%2, WithholdK: 1, Cause: c, Reconnect: rc, Noise: (ci+ri)%2 == 0}
+			if c == "status" {
+				e.Status = uint8(0x21 + ri)
+			}
+			if rc == "refused" {
+				e.ReStatus = uint8(0x22 + ci)
+			}
+			sc := []epochScript{e}
+			if rc == "ok" {
+				sc = append(sc, epochScript{Healthy: 1, WithholdK: 1, Cause: "close"})
+			}
+			slowJobs = append(slowJobs, job{len(scripts) + len(slowJobs), sc, slow})
+		}
+	}
+	jobs2 := make(chan job, len(slowJobs))
+	for _, j := range slowJobs {
+		jobs2 <- j
+	}
+	close(jobs2)
 	var wg sync.WaitGroup
 	for w := 0; w < 4; w++ {
 		wg.Add(1)
 		go func() {
 			defer wg.Done()
 			for j := range jobs {
+				if r.Enough() {
+					continue
+				}
+				runScript(j.id, j.s, j.tm, can)
+			}
+			for j := range jobs2 {
 				if r.Enough() {
 					continue
 				}
@@ -927,6 +1024,7 @@ func run(rr *mon.Run) {
 	r.Observe("ending_causes", causeCount)
 	r.Observe("worst_reconnect_delay_ms_by_cause", promptness)
 	r.Observe("stale_old_channel_heartbeats_seen", nStaleKnown)
+	r.Observe("channels_with_send_numbering_checked", nNumberedChannels)
 	r.Observe("background_sends_ok", nSendsOK)
 	r.Observe("background_sends_failed", nSendsErr)
 	r.Observe("logger_bytes", lg.n)
